@@ -71,14 +71,15 @@ func NewAsyncProducer(t ErrorReporter, config *sarama.Config) *AsyncProducer {
 					mp.errors <- &sarama.ProducerError{Err: err, Msg: msg}
 				} else {
 					msg.Partition = partition
+					var checkErr error
 					if expectation.CheckFunction != nil {
-						err := expectation.CheckFunction(msg)
-						if err != nil {
-							mp.t.Errorf("Check function returned an error: %s", err.Error())
-							mp.errors <- &sarama.ProducerError{Err: err, Msg: msg}
-						}
+						checkErr = expectation.CheckFunction(msg)
 					}
-					if expectation.Result == errProduceSuccess {
+					if checkErr != nil {
+						// a rejected message gets this one outcome, not the scripted one as well
+						mp.t.Errorf("Check function returned an error: %s", checkErr.Error())
+						mp.errors <- &sarama.ProducerError{Err: checkErr, Msg: msg}
+					} else if expectation.Result == errProduceSuccess {
 						mp.lastOffset++
 						if config.Producer.Return.Successes {
 							msg.Offset = mp.lastOffset
